@@ -44,6 +44,7 @@ type State struct {
 	locks        map[*Term]bool
 	spawned      []spawn
 	atomicWrites int
+	lastCASOld   *Term
 	dead         bool
 }
 
@@ -162,6 +163,7 @@ type Exec struct {
 	valueSort   *Sort
 	recFuel     map[*ssa.Function]int
 	maxFuel     int
+	loopBound   int
 	nFrame      int
 	frameOff    bool
 	unroll      bool
@@ -179,7 +181,7 @@ type iterRole struct {
 }
 
 func NewExec(c *Ctx, p *Program) *Exec {
-	return &Exec{c: c, prog: p, maxSteps: 400000, maxFuel: 2, iterSrc: map[*Term]iterRole{}, iterSources: map[int]*iterSource{}, iterOf: map[*Term]int{}, cellType: map[int]types.Type{}, cellName: map[int]string{}, cover: map[*ssa.Function]bool{}, globals: map[string]*ssa.Global{}, globalVals: map[string]*Term{}, initCells: map[int]*Term{}, rangeOfMap: map[*Term]*Term{}, initDone: map[*ssa.Package]bool{}}
+	return &Exec{c: c, prog: p, maxSteps: 400000, maxFuel: 2, loopBound: 3, iterSrc: map[*Term]iterRole{}, iterSources: map[int]*iterSource{}, iterOf: map[*Term]int{}, cellType: map[int]types.Type{}, cellName: map[int]string{}, cover: map[*ssa.Function]bool{}, globals: map[string]*ssa.Global{}, globalVals: map[string]*Term{}, initCells: map[int]*Term{}, rangeOfMap: map[*Term]*Term{}, initDone: map[*ssa.Package]bool{}}
 }
 
 func NewState() *State {
